@@ -350,6 +350,18 @@ def known_le(a, b):
     lb = lower_bound(b - a)
     if lb is not None and lb >= 0:
         return True
+    # strip a common constant term:  x + c <= max(.., x, ..) + c
+    ca, cb = a.t.get((), 0), b.t.get((), 0)
+    if ca == cb and ca != 0:
+        return known_le(a - ca, b - cb)
+    # monotone floor division by the same positive constant
+    if _is_fn(a, 'floordiv') and _is_fn(b, 'floordiv'):
+        xa, da = _args(a)
+        xb, db = _args(b)
+        if isinstance(da, Poly) and isinstance(db, Poly) and da == db and \
+                da.const_value() is not None and da.const_value() > 0 and \
+                isinstance(xa, Poly) and isinstance(xb, Poly):
+            return known_le(xa, xb)
     for s, g in ORDER_FACTS:
         # a <= s <= g <= b
         if (a == s or _triv_le(a, s)) and (g == b or _triv_le(g, b)):
@@ -495,7 +507,7 @@ def lower_bound(p, lb=None):
     ``lb`` (default 1) and opaque atoms are >= 0... only computed when all
     non-constant coefficients are >= 0 and no opaque atoms occur."""
     p = Poly.coerce(p)
-    lb = lb or {}
+    lb = lb or LOWER
     total = Fraction(0)
     for m, c in p.t.items():
         if m == ():
@@ -510,6 +522,11 @@ def lower_bound(p, lb=None):
             v *= Fraction(lb.get(a, 1)) ** e
         total += c * v
     return total
+
+
+# default lower bounds of free symbols (set per run by the interpreter from
+# opts['lower_bounds']; symbols not listed are >= 1)
+LOWER = {}
 
 
 class Lin:
